@@ -421,7 +421,10 @@ func (x *Exec) callBuiltin(name string, args []Value, site *ssa.CallCommon) Valu
 		switch a := args[0].(type) {
 		case *StrVal:
 			if a.Opaque {
-				panic(unsupported("len of opaque string"))
+				// unknown text: its length is an unconstrained value >= MinLen
+				n := x.fresh("oplen", SBV64)
+				x.vAssume(tAnd(bvCmp(OpSLe, mkBV(64, uint64(a.MinLen)), n), bvCmp(OpSLe, n, mkBV(64, 1<<20))))
+				return n
 			}
 			if len(a.Alts) > 1 {
 				// avoid forking when all alternatives have the same length
